@@ -78,6 +78,11 @@ class SectorStream(StreamWrapper):
     
     def _read(self, size: int)->bytes:
 
+        # nothing to read (e.g. cursor at the very end of the last sector):
+        # do not touch a sector that does not exist
+        if size <= 0:
+            return bytes()
+
         remaining_size = size
 
         initial_sector_index    = self.position // self.sector_length
